@@ -127,7 +127,7 @@ class FnAutomaton:
                 if isinstance(o.nxt, int) and o.nxt not in self.steps:
                     todo.append(o.nxt)
 
-    SYNC = r"Mutex::lock$|Condvar::wait$|Condvar::notify_one$|Condvar::notify_all$"
+    SYNC = r"Mutex::lock$|Condvar::wait$|Condvar::wait_while$|Condvar::notify_one$|Condvar::notify_all$"
 
     def is_sync_block(self, blk):
         t = blk.term
@@ -215,6 +215,24 @@ class FnAutomaton:
                     self.eng.write_place(st, dest, EnumV("Result", "Ok", 0, {0: Agg("token:guard", {})}))
                     cnt, locs = self.snapshot(st, fr)
                     outs.append(Outcome(cond, cnt, locs, ret_bb, "wait", "", needs, race))
+                elif re.search(r"Condvar::wait_while$", norm):
+                    # std: `while condition(&mut *guard) { guard = self.wait(guard)?; } Ok(guard)`.  The predicate closure is evaluated
+                    # on the shared counter with the mutex held; if it holds the thread waits and re-evaluates this very call after
+                    # the wake-up, otherwise the call returns the guard.
+                    import listsum
+                    if held is None:
+                        needs = True
+                    clo = self.eng.operand(st, argops[2])
+                    try:
+                        pred = listsum.closure_term(self.eng, st, clo, [Ref("count", (), True)])
+                    except Exception as ex:   # noqa
+                        raise Inconclusive("wait_while predicate not evaluated: %s" % str(ex)[:120])
+                    cnt, locs = self.snapshot(st, fr)
+                    outs.append(Outcome(z3.And(cond, pred), cnt, locs, fr.bb, "wait", "wait_while", needs, race))
+                    st.pc.append(z3.Not(pred))
+                    self.eng.write_place(st, dest, EnumV("Result", "Ok", 0, {0: Agg("token:guard", {})}))
+                    fr.bb = ret_bb
+                    work.append((st, action, held, needs, race, False))
                 elif re.search(r"Condvar::notify_(one|all)$", norm):
                     self.eng.write_place(st, dest, Unit())
                     fr.bb = ret_bb
